@@ -859,6 +859,13 @@ def get_attr(self, st, base, attr, node, default=KeyError):
         return [(st, "val", Top("attr:" + attr))]
     if isinstance(base, Exc):
         return [(st, "val", Top("exc." + attr, True))]
+    if callable(base) and not isinstance(base, type) and getattr(base, "__name__", None):
+        # a harness-provided callable standing for a user function: it has no attributes beyond its name
+        if attr == "__name__":
+            return [(st, "val", base.__name__)]
+        if default is not KeyError:
+            return [(st, "val", default)]
+        return self.raise_exc(st, "AttributeError", node, "missing-attr", "function object has no attribute %s" % attr)
     raise U_("attribute %s on %r at %s" % (attr, base, self.loc(node)))
 
 
